@@ -104,7 +104,8 @@ def same_basename_sequences(res, tier):
             for k, text in enumerate(texts):
                 os.makedirs(os.path.join(tmp, f"s{i}", f"v{k}"), exist_ok=True)
                 path = os.path.join(tmp, f"s{i}", f"v{k}", "main.py")
-                with open(path, "w", encoding="utf-8") as f:
+                # (every other sequence: the third file is saved with a byte order mark, which is not part of its text)
+                with open(path, "w", encoding="utf-8-sig" if (k == 2 and i % 2 == 0) else "utf-8") as f:
                     f.write(text)
                 paths.append(path)
             env = dict(os.environ, PYTHONPATH=core.REPO + os.pathsep + os.path.join(core.VERIF, "harness"), PYTHONDONTWRITEBYTECODE="1")
